@@ -675,8 +675,23 @@ func (h *history) readOnlyStep() {
 		txn.Int64("expire").Sum()
 		return nil
 	})
+	// the collection-level shortcuts on rows / keys that are not there: refused, nothing emitted
+	if h.wd.P.DeleteAt(free) {
+		deleted = true
+	}
+	if m.KeyCol != "" {
+		for _, k := range h.wd.Keys {
+			if _, exists := m.keyOffset(k); !exists {
+				if h.wd.P.DeleteKey(k) == nil {
+					deleted = true
+				}
+				h.wd.P.QueryKey(k, func(r column.Row) error { r.SetInt64("expire", 1); return nil }) // fails before the callback
+				break
+			}
+		}
+	}
 	h.stats["read_only_txns"]++
-	h.logf("read-only txn{Count; With(expire).Count; Range; DeleteAt(free %d); QueryAt; Sum} => %v", free, err)
+	h.logf("read-only txn{Count; With(expire).Count; Range; DeleteAt(free %d); QueryAt; Sum}; Collection.DeleteAt(free); DeleteKey/QueryKey(absent) => %v", free, err)
 	emitted := h.feedReplica()
 	trig := h.wd.cutTriggers()
 	ncb := 0
